@@ -418,6 +418,77 @@ def m_btree_get(ex, st, callee, args, dest_ty):
         yield st2, none()
 
 
+def m_btree_new(ex, st, callee, args, dest_ty):
+    yield st, MapV(z3.IntVal(0), (), "kv")
+
+
+def m_btree_insert(ex, st, callee, args, dest_ty):
+    """BTreeMap::insert(&mut m, k, v): replaces the value of an equal key, else inserts keeping the key order"""
+    base, m = _map_ref(ex, st, args[0])
+    key, val = args[1], args[2]
+    kr = _rank(key)
+    for st2, n in ex.enum_values(st, m.len, limit=len(m.items) + 2):
+        items = list(_map_ref(ex, st2, args[0])[1].items[:n])
+        conds = []
+        for i, ent in enumerate(items):
+            c = _rank(ent.fields[0]) == kr
+            conds.append(c)
+            for st3 in ex.branch(st2, c):
+                it2 = list(items)
+                it2[i] = Adt("tuple", None, (ent.fields[0], val))
+                ex.write(st3, base.cell, base.projs, MapV(z3.IntVal(n), it2, m.elem_ty))
+                yield st3, some(ent.fields[1])
+        for pos in range(n + 1):
+            c = [z3.Not(x) for x in conds]
+            if pos > 0:
+                c.append(_rank(items[pos - 1].fields[0]) < kr)
+            if pos < n:
+                c.append(kr < _rank(items[pos].fields[0]))
+            for st3 in ex.branch(st2, z3.And(c) if c else z3.BoolVal(True)):
+                it2 = items[:pos] + [Adt("tuple", None, (key, val))] + items[pos:]
+                ex.write(st3, base.cell, base.projs, MapV(z3.IntVal(n + 1), it2, m.elem_ty))
+                yield st3, none()
+
+
+def m_slice_reverse(ex, st, callee, args, dest_ty):
+    r = args[0]
+    base = r
+    while isinstance(ex.read(st, base.cell, base.projs), Ref):
+        base = ex.read(st, base.cell, base.projs)
+    v = ex.read(st, base.cell, base.projs)
+    for st2, n in ex.enum_values(st, v.len, limit=len(v.items) + 2):
+        v2 = ex.read(st2, base.cell, base.projs)
+        ex.write(st2, base.cell, base.projs, VecV(z3.IntVal(n), tuple(reversed(v2.items[:n])), v2.elem_ty))
+        yield st2, UNIT
+
+
+def m_slice_get(ex, st, callee, args, dest_ty):
+    r = args[0]
+    base = r
+    while isinstance(ex.read(st, base.cell, base.projs), Ref):
+        base = ex.read(st, base.cell, base.projs)
+    v = ex.read(st, base.cell, base.projs)
+    i = args[1]
+    for st2 in ex.branch(st, i.e >= v.len):
+        yield st2, none()
+    for st2 in ex.branch(st, i.e < v.len):
+        for st3, k in ex.enum_values(st2, i.e, limit=len(v.items) + 2):
+            yield st3, some(Ref(base.cell, base.projs + (("index", k),)))
+
+
+def m_vec_into_iter_ref(ex, st, callee, args, dest_ty):
+    r = args[0]
+    base = r
+    while isinstance(ex.read(st, base.cell, base.projs), Ref):
+        base = ex.read(st, base.cell, base.projs)
+    yield st, Opaque("SliceIter", info=(base, 0))
+
+
+def m_int_into_number(ex, st, callee, args, dest_ty):
+    """FeelNumber::from(integer): the number's order rank is the integer itself"""
+    yield st, Opaque("FeelNumber", args[0].e)
+
+
 def m_box_borrow(ex, st, callee, args, dest_ty):
     v = deref(ex, st, args[0]) if False else args[0]
     # &Box<T> -> &T : a Box is modelled as a Ref to its heap cell
@@ -438,11 +509,17 @@ VALUE_MODELS = [
     (R(r"^Feel(Time|DateTime)::between$"), m_temporal_between),
     (R(r"^date_time_offset$"), m_date_time_offset_utc),
     (R(r"^<DateTime<FixedOffset> as Ord>::cmp$"), m_datetime_cmp),
-    (R(r"^core::slice::<impl \[.*\]>::iter$"), m_slice_iter),
-    (R(r"^<(std::slice::Iter<.*>|Zip<.*>|std::collections::btree_map::Iter<.*>|Enumerate<.*>) as Iterator>::next$"), m_iter_next),
-    (R(r"^<std::slice::Iter<.*> as Iterator>::zip::<.*>$"), m_iter_zip),
-    (R(r"^<std::slice::Iter<.*> as Iterator>::enumerate$"), m_iter_enumerate),
-    (R(r"^<(Zip<.*>|std::slice::Iter<.*>|Enumerate<.*>) as IntoIterator>::into_iter$"), m_into_iter_id),
+    (R(r"^core::slice::<impl \[.*\]>::iter(_mut)?$"), m_slice_iter),
+    (R(r"^core::slice::<impl \[.*\]>::reverse$"), m_slice_reverse),
+    (R(r"^core::slice::<impl \[.*\]>::get::<usize>$"), m_slice_get),
+    (R(r"^<&(mut )?Vec<.*> as IntoIterator>::into_iter$"), m_vec_into_iter_ref),
+    (R(r"^<(i|u)(\d+|size) as Into<FeelNumber>>::into$|^<FeelNumber as From<(i|u)(\d+|size)>>::from$"), m_int_into_number),
+    (R(r"^BTreeMap::<.*>::new$|^<BTreeMap<.*> as Default>::default$"), m_btree_new),
+    (R(r"^BTreeMap::<.*>::insert$"), m_btree_insert),
+    (R(r"^<(std::slice::Iter(Mut)?<.*>|Zip<.*>|std::collections::btree_map::Iter<.*>|Enumerate<.*>) as Iterator>::next$"), m_iter_next),
+    (R(r"^<std::slice::Iter(Mut)?<.*> as Iterator>::zip::<.*>$"), m_iter_zip),
+    (R(r"^<std::slice::Iter(Mut)?<.*> as Iterator>::enumerate$"), m_iter_enumerate),
+    (R(r"^<(Zip<.*>|std::slice::Iter(Mut)?<.*>|Enumerate<.*>) as IntoIterator>::into_iter$"), m_into_iter_id),
     (R(r"^<&BTreeMap<.*> as IntoIterator>::into_iter$|^BTreeMap::<.*>::iter$"), m_btree_into_iter),
     (R(r"^BTreeMap::<.*>::keys$"), m_btree_keys),
     (R(r"^<std::collections::btree_map::Keys<.*> as Iterator>::next$"), m_keys_next),
